@@ -247,8 +247,8 @@ def _run(case, ctx):
             raise AssertionError('generator produced differing dimensions')
         k = case.get('k', 1.0)
         exp = [b / Fv / k for b in base]
-        if not U.finite_ok(*exp):
-            return outcome(skip='overflow')
+        if not U.finite_ok(*exp) or any(e == 0 and z != 0 for e, z in zip(exp, xs)) or any(b == 0 and z != 0 for b, z in zip(base, xs)):
+            return outcome(skip='overflow')      # includes underflow of a non-zero magnitude to zero
         if t == 'toq':
             classes.append('target-quantity')
             q = mk()
@@ -280,7 +280,7 @@ def _run(case, ctx):
         cmp(getv(q), [z * mu[1] for z in xs], 'roundtrip', 'roundtrip_compares')
         if wt:
             mid = [b / mw[0] for b in base]
-            if U.finite_ok(*mid):
+            if U.finite_ok(*mid) and not any(m == 0 and z != 0 for m, z in zip(mid, xs)):
                 classes.append('via-intermediate')
                 q2 = mk()
                 q2.to(wt).to(vt)
